@@ -19,6 +19,8 @@ class GetInstance(Contract):
     name = "Pyro5.server.Daemon._getInstance"
     props = ("C09",)
     raises = {"builtins.Exception": "x_failed"}
+    raises_any_subclass = ("builtins.Exception",)
+    log_calls = False
     trusted = ("the instance is an opaque object: its truthiness, equality and hash are uninterpreted (so falsy / custom-__eq__ instances are covered)",
                "one thread serves a connection at a time (the session table of a connection is not shared)",
                "`clazz()` and the instance creator are user code: arbitrary result, may raise any Exception")
@@ -34,7 +36,18 @@ class GetInstance(Contract):
         st.ghost["creations"] = VInt(0)
         st.ghost["creator_calls"] = VInt(0)
         st.ghost["last_created"] = VOpaque(U_NONE)
+        from specs.daemon_model import new_call_context
+        ctx = new_call_context(st)
+        st.set(ctx, "client", conn)
+        st.genv = {"current_context": ctx}
         return {"self": d, "clazz": self.clazz, "conn": conn}
+
+    def requires(self, E, st, a):
+        # constructors / creators are user code and may use the call context (e.g. track resources on the connection)
+        ctx = st.genv.get("current_context")
+        cl = st.get(ctx, "client") if ctx is not None else None
+        return [("the call context already names this connection when user constructors run",
+                 z3.BoolVal(isinstance(cl, VObj) and cl.ref == a["conn"].ref))]
 
     # --- hooks describing the user code involved ---------------------------------------------------------------------
     def opaque_getattr(self, E, st, x, n, default):
@@ -75,7 +88,12 @@ class GetInstance(Contract):
         Pt = st.get(a["conn"], "pyroInstances")
         return (st.get(S, "dom"), st.get(S, "map"), st.get(Pt, "dom"), st.get(Pt, "map"))
 
+    def result(self, E, st, a):
+        return VOpaque(fresh("instance", U))
+
     def ensures(self, E, old, st, a, result):
+        if E.cur_contract is not self:
+            return [("an instance, never None", result.e != U_NONE)]
         c = self.clazz.e
         Sd0, Sm0, Pd0, Pm0 = self._tables(old, a)
         Sd, Sm, Pd, Pm = self._tables(st, a)
@@ -108,6 +126,8 @@ class GetInstance(Contract):
         ]
 
     def x_failed(self, E, old, st, a, exc):
+        if E.cur_contract is not self:
+            return []
         # a failing creation (creator/constructor raised, wrong type, invalid mode) stores nothing
         Sd0, Sm0, Pd0, Pm0 = self._tables(old, a)
         Sd, Sm, Pd, Pm = self._tables(st, a)
